@@ -848,11 +848,84 @@ def h_withdrawn(ctx):
 
 
 
+# ------------------------------------------------------------------ signatures whose leading octets are zero, presented without them
+_LZ = {}
+
+
+def _leading_zero_case(alg, kind):
+    """(payload, signature) of the first payload {"n":k} whose reference signature starts with a zero octet (about 1 in 256)."""
+    if (alg, kind) not in _LZ:
+        jwk = scen.key(kind, 0)
+        seg = b64.enc(rjws.hdr_json({"alg": alg}).encode())
+        found = None
+        for n in range(20000):
+            payload = b'{"n":%d}' % n
+            sig = jws_sign(alg, jwk, rjws.signing_input(seg, payload, True))
+            if sig[0] == 0:
+                found = (seg, payload, sig)
+                break
+        _LZ[(alg, kind)] = found
+    return _LZ[(alg, kind)]
+
+
+def h_leading_zero(ctx):
+    """A signature is an octet string of fixed length (RFC 7518 3.3-3.5: the modulus length; 2 x the field length). One signature in 256
+    starts with a zero octet. Such a token is built by search with the reference signer; it verifies as it is, and every presentation
+    with leading octets dropped (a truncation from the front), moved to the end, or with r and s narrowed, is rejected."""
+    from joserfc import jws, jwt
+    alg, kind = ctx.choose("alg/key", [("RS256", "rsa"), ("RS384", "rsa"), ("RS512", "rsa"), ("PS256", "rsa"), ("PS512", "rsa"),
+                                       ("ES256", "P-256"), ("ES384", "P-384"), ("ES256K", "secp256k1"), ("EdDSA", "Ed25519"), ("HS256", "oct32")])
+    ep = ctx.choose("entry_point", ["jws.deserialize_compact", "jwt.decode", "jws.deserialize_json(flattened)", "jws.deserialize_json(general)", "key set"])
+    how = ctx.choose("presented", ["as signed", "zeros dropped", "first octet dropped", "zeros moved to the end", "zeros dropped, one appended",
+                                   "second half's zeros dropped too"])
+    case = _leading_zero_case(alg, kind)
+    if case is None:
+        return Outcome("no-leading-zero-found", [], nontrivial=None)
+    seg, payload, sig = case
+    stripped = sig.lstrip(b"\x00")
+    nz = len(sig) - len(stripped)
+    new = {"as signed": sig, "zeros dropped": stripped, "first octet dropped": sig[1:], "zeros moved to the end": stripped + b"\x00" * nz,
+           "zeros dropped, one appended": stripped + b"\x00"}[how] if how != "second half's zeros dropped too" else None
+    if new is None:
+        if alg not in ES:
+            return Outcome("fault-not-applicable", [], nontrivial=None)
+        half = len(sig) // 2
+        new = sig[:half].lstrip(b"\x00") + sig[half:].lstrip(b"\x00")
+    if how != "as signed" and new == sig:
+        return Outcome("fault-not-applicable", [], nontrivial=None)
+    jwk = scen.key(kind, 0)
+    key = A.jkey(jwk if jwk["kty"] == "oct" else rjwk.public_of(jwk), "dict")
+    if ep == "key set":
+        from joserfc.jwk import KeySet
+        key = KeySet([key])
+    s64 = b64.enc(new)
+
+    def verify():
+        if ep in ("jws.deserialize_compact", "key set"):
+            return bytes(jws.deserialize_compact(seg + "." + b64.enc(payload) + "." + s64, key, algorithms=[alg]).payload)
+        if ep == "jwt.decode":
+            return json.dumps(jwt.decode(seg + "." + b64.enc(payload) + "." + s64, key, algorithms=[alg]).claims, separators=(",", ":")).encode()
+        if ep.endswith("(flattened)"):
+            return bytes(jws.deserialize_json({"protected": seg, "payload": b64.enc(payload), "signature": s64}, key, algorithms=[alg]).payload)
+        return bytes(jws.deserialize_json({"payload": b64.enc(payload), "signatures": [{"protected": seg, "signature": s64}]}, key, algorithms=[alg]).payload)
+    r = call(verify)
+    fam = alg[:2] if alg != "EdDSA" else alg
+    vs = []
+    if how == "as signed":
+        if not r.ok or r.value != payload:
+            vs.append(viol(f"valid token whose signature starts with a zero octet rejected by {ep}: {fam}*", repr(r.exc if not r.ok else r.value)))
+    elif r.ok:
+        vs.append(viol(f"{ep} accepts tampered JWS [signature whose leading zero octets were cut: {how}]: {fam}*",
+                       f"{alg}: signature of {len(sig)} octets with {nz} leading zero octet(s) presented as {len(new)} octets; returned {r.value!r}"))
+    return Outcome(f"leading-zero:{how}:{'ok' if r.ok else 'rej:' + r.etype}", vs, nontrivial=(alg, ep, how))
+
+
 _pe = Part("after-caller-edits", h_after_caller_edits, split_depth=2)
 _pe.single_bucket_ok = True          # on a tree where the property holds every forged token is rejected: one outcome
 PARTS = [
     _pe,
     Part("withdrawn-key", h_withdrawn, split_depth=2),
+    Part("leading-zero-signatures", h_leading_zero, split_depth=1),
     Part("long-payloads", h_long, split_depth=2),
     Part("faults", h_faults, bound={"quick": 2, "thorough": 2}, split_depth=4, budget={"quick": 2000, "thorough": 3000}),
 ]
